@@ -353,6 +353,9 @@ namespace
             case K_CVT_LOAD:
             case K_CVT_STORE:
                 return (size_t)e.lanes * e.mem_elem;
+            case K_CCVT_LOAD:
+            case K_CCVT_STORE:
+                return (size_t)2 * e.lanes * e.mem_elem;
             default: // incl. the split complex forms: each of their two windows holds `lanes` reals
                 return (size_t)e.lanes * e.elem;
             }
@@ -438,6 +441,9 @@ namespace
             case K_CVT_GATHER:
             case K_CVT_SCATTER:
                 return (size_t)e.mem_elem;
+            case K_CCVT_LOAD:
+            case K_CCVT_STORE:
+                return (size_t)2 * e.mem_elem;
             default:
                 return (size_t)e.elem;
             }
@@ -848,6 +854,16 @@ namespace
                 if (e.kind == K_CVT_STORE || e.kind == K_CVT_SCATTER)
                     for (int i = 0; i < e.lanes; ++i)
                         enc(e.tname, small_value(e, rr.next()), reg_in + (size_t)i * e.elem);
+                const char* const reg_real_t = e.elem == 4 ? "f32" : "f64"; // complex registers hold reals of this type
+                if (e.kind == K_CCVT_LOAD)
+                    for (int k = 0; k < 2 * e.lanes; ++k)
+                    {
+                        enc(e.mem_tname, (long)(rr.next() % 101) - 50, wptr + (size_t)k * e.mem_elem);
+                        memcpy(g_mem.shadow + woff + (size_t)k * e.mem_elem, wptr + (size_t)k * e.mem_elem, (size_t)e.mem_elem);
+                    }
+                if (e.kind == K_CCVT_STORE)
+                    for (int k = 0; k < 2 * e.lanes; ++k)
+                        enc(reg_real_t, (long)(rr.next() % 101) - 50, reg_in + (size_t)k * e.elem);
                 Ctx c;
                 c.p = ptr;
                 c.p2 = second ? g_mem.data + woff2 : nullptr;
@@ -986,6 +1002,29 @@ namespace
                     for (int i = 0; i < e.lanes; ++i)
                         memcpy(g_mem.shadow + woff + (size_t)(op.idx[(size_t)i] - lo) * eb, reg_in + (size_t)i * e.elem, (size_t)e.elem);
                     break;
+                case K_CCVT_LOAD:
+                    ++cl_cvt;
+                    for (int i = 0; i < e.lanes; ++i)
+                    {
+                        bool e1, e2, e3, e4;
+                        long re = dec(reg_real_t, reg_out + (size_t)i * e.elem, e1), im = dec(reg_real_t, reg_out + rb + (size_t)i * e.elem, e2);
+                        long mre = dec(e.mem_tname, g_mem.shadow + woff + (size_t)(2 * i) * e.mem_elem, e3), mim = dec(e.mem_tname, g_mem.shadow + woff + (size_t)(2 * i + 1) * e.mem_elem, e4);
+                        if (!e1 || !e2 || !e3 || !e4 || re != mre || im != mim)
+                        {
+                            out.violate(sim::fmt("C04/lane-mismatch(%s)", e.form), sim::fmt("%s: complex lane %d holds (%ld,%ld), memory element %d is (%ld,%ld)", where.c_str(), i, re, im, i, mre, mim));
+                            break;
+                        }
+                    }
+                    break;
+                case K_CCVT_STORE:
+                    ++cl_cvt;
+                    for (int i = 0; i < e.lanes; ++i)
+                    {
+                        bool ex;
+                        enc(e.mem_tname, dec(reg_real_t, reg_in + (size_t)i * e.elem, ex), g_mem.shadow + woff + (size_t)(2 * i) * e.mem_elem);
+                        enc(e.mem_tname, dec(reg_real_t, reg_in + rb + (size_t)i * e.elem, ex), g_mem.shadow + woff + (size_t)(2 * i + 1) * e.mem_elem);
+                    }
+                    break;
                 case K_CVT_LOAD:
                 case K_CVT_GATHER:
                     e.kind == K_CVT_LOAD ? ++cl_cvt : ++cl_cvtgs;
@@ -1056,7 +1095,7 @@ namespace
                     while (g_mem.data[i] == g_mem.shadow[i])
                         ++i;
                     bool inside = (i >= woff && i < woff + wbytes) || (second && i >= woff2 && i < woff2 + wbytes);
-                    bool is_store = e.kind == K_CPLX2_STORE || e.kind == K_STORE || e.kind == K_BOOL_STORE || e.kind == K_CPLX_STORE || e.kind == K_SCATTER || e.kind == K_CVT_STORE || e.kind == K_CVT_SCATTER;
+                    bool is_store = e.kind == K_CCVT_STORE || e.kind == K_CPLX2_STORE || e.kind == K_STORE || e.kind == K_BOOL_STORE || e.kind == K_CPLX_STORE || e.kind == K_SCATTER || e.kind == K_CVT_STORE || e.kind == K_CVT_SCATTER;
                     std::string cls;
                     if (inside && is_store)
                         cls = e.kind == K_BOOL_STORE && g_mem.data[i] > 1 ? sim::fmt("C04/bool-encoding(%s)", e.form) : sim::fmt("C04/missing-write(%s)", e.form);
